@@ -55,8 +55,34 @@ def gen_case(rng: Rng, i: int, tier: str):
         if tier == "thorough" and r.chance(0.5):
             st["line_p"] = r.pick([0.005, 0.02, 0.1])  # line-level pre-emption inside py7zr frames
         scheds.append(st)
-    return {"archive": arc, "damage": damage, "dseed": r.randrange(1 << 30), "scheds": scheds, "sink": r.wpick([(4, "factory"), (1, "path")]),
+    case = {"archive": arc, "damage": damage, "dseed": r.randrange(1 << 30), "scheds": scheds, "sink": r.wpick([(4, "factory"), (1, "path")]),
             "concurrent_sessions": r.wpick([(4, 0), (1, 2), (1, 3)]), "mp": r.chance(0.4)}
+    rr = rng.sub("ref")
+    if rr.chance(0.25):
+        # a multi-folder archive of the reference writer: several members per folder, per-member CRCs or only one CRC per
+        # folder, codecs that do not notice damage themselves (Copy) - layouts py7zr's own writer never makes
+        from props import c06
+
+        for attempt in range(20):
+            c = c06.gen_case(rng.sub("ref%d" % attempt), 10 ** 6, tier)
+            if "members" not in c or len([f for f in c["layout"]["folders"] if f["members"]]) < 2 or c["layout"].get("password") is not None:
+                continue
+            if any(m["kind"] == "symlink" for m in c["members"]):
+                continue
+            c["layout"]["crc"] = rr.pick(["folder", "folder", "substream"])
+            c["layout"]["header_crc"] = True
+            if rr.chance(0.5):
+                for f in c["layout"]["folders"]:
+                    if rr.chance(0.6):
+                        f["chain"] = [{"id": "COPY"}]
+            if not any(len(f["members"]) >= 2 for f in c["layout"]["folders"][:-1]) and attempt < 12:
+                continue  # prefer a folder of several members that is not the last one
+            del case["archive"]
+            case["ref"] = {"members": c["members"], "layout": c["layout"]}
+            case["damage"] = rr.pick(["flip", "flip", "flip_many", None])
+            case["sink"] = rr.pick(["factory", "factory", "path"])
+            break
+    return case
 
 
 class _Unwritable(Exception):
@@ -247,7 +273,7 @@ def _make_process_class(rng):
 def run_case(case):
     py7zr = import_py7zr()
     res = {"evals": 0, "violations": [], "faults": {}, "probes": {}, "rejected": {}, "classes": {}, "sigs": [], "interleavings": [], "extra": {}}
-    built = rsess.build_archive(case["archive"])
+    built = rsess.build_from_ref(case["ref"]) if "ref" in case else rsess.build_archive(case["archive"])
     if built.rejected or built.error is not None or built.image is None or built.nfolders < 2:
         res["extra"]["archive_skipped"] = 1
         res["digest"] = digest_of(["skipped"])
@@ -293,7 +319,9 @@ def run_case(case):
         dmg_desc = ("unwritable", fail_name)
         res["faults"]["unwritable_output"] = 1
     cls = {"sink": case["sink"], "damage": case["damage"] if dmg_desc else None, "folders": built.nfolders}
-    cls.update(gen.dep_flags([s.get("chain") for s in case["archive"]["sessions"]], None, None))
+    cls.update(case_class(case))
+    if "ref" in case:
+        cls["source"] = "ref7z"
     want = model_products if case["sink"] == "factory" else model_tree
     log = []
 
@@ -425,7 +453,7 @@ def shrink_candidates(case):
         c = copy.deepcopy(case)
         c["concurrent_sessions"] = 0
         yield c
-    arc = case["archive"]
+    arc = case.get("archive") or {"sessions": []}
     if len(arc["sessions"]) > 2:
         c = copy.deepcopy(case)
         c["archive"]["sessions"].pop()
@@ -439,4 +467,6 @@ def shrink_candidates(case):
 
 
 def case_class(case):
+    if "ref" in case:
+        return gen.dep_flags([[{"id": f["id"]} for f in fo["chain"]] for fo in case["ref"]["layout"]["folders"]], None, None)
     return gen.dep_flags([s.get("chain") for s in case["archive"]["sessions"]], None, None)
